@@ -71,9 +71,9 @@ CLAIMED = {
             "Proof: Spec/SyntaxPps.v writes pic_parameter_set_rbsp as an encoder (enc_pps) with the standard's ranges (wf_pps, relative to the referenced SPS: run lengths / rectangles / change rate against PicSizeInMapUnits, slice_group_id width Ceil(Log2(n+1)), QP range with QpBdOffset, 6+(2|6) scaling lists). C05_roundtrip: for every context whose SPS were accepted and every conforming PPS, pps_from_bits (enc_pps p ++ rbsp trailing bits with any zero padding) = OK p, field for field; C05_body: the structure parser stops exactly at the trailing bits; C05_tail_exact: the optional tail is detected exactly when data precedes the trailing bits; C05_accepted / C05_consumes: every accepted PPS (any input) satisfies inv_pps and was consumed front to back, never aborting. Correspondence on every run: all 7 map types x 2..8 groups x tail on/off x list shapes x SPS variants, boundary values, malformed variants, model = implementation.",
             "Trusted: Coq kernel; the correspondence run ties Model/Pps.v to src/nal/pps.rs; Python generator/encoder shapes inputs only.",
             "DESIGN.md 5 C05"),
-    "C06": ("Coq weakest-precondition proof through the whole slice-header model (fuelled loops included) for accepted headers; conditional-presence and reader position by differential execution over all flag combinations",
-            "Partial proof: for every input and every context of accepted sets slice_header_read never aborts (its unbounded loops never run out of fuel), consumes front to back, and an accepted header satisfies inv_slice (the returned ids name the context's PPS and the SPS it refers to; frame_num / POC lsb below the declared moduli; ref counts <= 32; QS 0..51; qp delta <= 51; deblocking idc <= 6). That each conditional element is read exactly under the standard's condition, and that the reader stops on the first bit of slice data, is checked by correspondence: all slice types x NAL types x ref_idc x 2^13 context flag combinations with boundary values; the 16 bits after the header must be the generated slice data.",
-            "Trusted: Coq kernel; Python encoder of 7.3.3 shapes the inputs.",
+    "C06": ("Coq round-trip proof against a spec encoder of 7.3.3 / 7.3.3.1-3 (presence conditions as in the standard, reader left on the first bit of slice data) over every context of accepted parameter sets + weakest-precondition totality/invariant proof; model tied to src/nal/slice/mod.rs by differential execution over all flag combinations",
+            "Proof: Spec/SyntaxSlice.v writes slice_header, ref_pic_list_modification, pred_weight_table and dec_ref_pic_marking as an encoder relative to the NAL header byte and the activated PPS/SPS; wf_slice states for every element the standard's presence condition (slice type family, NAL type 5, nal_ref_idc, separate_colour_plane, frame_mbs_only, POC type with bottom-field flag and field_pic, redundant_pic_cnt_present, weighted_pred/bipred, entropy_coding_mode, deblocking control) and the representable ranges; B slices with an explicit weight table are excluded as the property says, and the two deblocking offsets and slice_qs_delta, which the library does not store, are extra encoder inputs / recovered from SliceQS. C06_roundtrip: for every context of accepted sets, every conforming header and every following slice data `rest` (on any source kind), slice_header_read returns exactly the structure, the activated SPS and PPS ids, and the source positioned on `rest`. C06_accepted: for every input the parser never aborts (its unbounded loops never run out of fuel), consumes front to back and an accepted header satisfies inv_slice. Correspondence on every run: all slice types x NAL types x ref_idc x 2^13 context flag combinations with boundary values; the 16 bits after the header must be the generated slice data; model = implementation.",
+            "Trusted: Coq kernel; the correspondence run ties Model/Slice.v to src/nal/slice/mod.rs; Python encoder of 7.3.3 shapes the inputs. Not covered (as the property allows): PPS with evolving slice groups (slice_group_change_cycle is not parsed by the library).",
             "DESIGN.md 5 C06"),
     "C11": ("Coq theorems about the T.35 parser and its dumped table (complete sweep), totality of buffering_period / pic_timing; Annex D round trips by differential execution over all VUI shapes",
             "Partial proof: T.35: the country code (or extension byte) is returned and the remainder starts immediately after it; the model's table equals the implementation's on all 256 first bytes incl. consumed length; distinct codes give distinct values. buffering_period / pic_timing never abort on any payload under any accepted SPS. Their value-level round trip (delay pairs per CPB per present HRD, delays whenever either HRD is present with that HRD's widths, NumClockTS timestamps, signed time offset) is checked by correspondence over VUI shapes {none, NAL, VCL, both} x CPB counts (different per HRD) x widths x time_offset_length x pic_struct 0..15.",
